@@ -55,30 +55,32 @@ theorem answeredB_sound {id dl : Int} : ∀ {evs : List WEv}, answeredB id dl ev
     simp only [answeredB, Bool.or_eq_true] at h
     exact h.elim Or.inl fun h' => Or.inr (answeredB_sound h')
 
-def liveB (sr : Msg → Bool) (D : Int → Int) : Conn → List WEv → Bool
-  | _, [] => true
-  | c, ev :: rest =>
+def liveB (sr : Msg → Bool) (D : Int → Int) : Int → Conn → List WEv → Bool
+  | _, _, [] => true
+  | p, c, ev :: rest =>
+    decide (p ≤ ev.now) &&
     (match ev with
       | .recv _ m => benignB c m
       | .tick env => decide (1000 ≤ env.now)) &&
     (match c.testReqId, (step sr c ev.toEvent).1.testReqId with
-      | none, some id => answeredB id (D ev.now) rest
+      | none, some id => !(writes (step sr c ev.toEvent).2).isEmpty && answeredB id (D ev.now) rest
       | _, _ => true) &&
-    liveB sr D (step sr c ev.toEvent).1 rest
+    liveB sr D ev.now (step sr c ev.toEvent).1 rest
 
 theorem liveB_sound {sr : Msg → Bool} {D : Int → Int} :
-    ∀ {c : Conn} {evs : List WEv}, liveB sr D c evs = true → Live sr D c evs
-  | _, [], _ => trivial
-  | c, ev :: rest, h => by
-    simp only [liveB, Bool.and_eq_true] at h
-    obtain ⟨⟨h1, h2⟩, h3⟩ := h
-    refine ⟨?_, ?_, liveB_sound h3⟩
+    ∀ {p : Int} {c : Conn} {evs : List WEv}, liveB sr D p c evs = true → Live sr D p c evs
+  | _, _, [], _ => trivial
+  | p, c, ev :: rest, h => by
+    simp only [liveB, Bool.and_eq_true, decide_eq_true_eq] at h
+    obtain ⟨⟨⟨h0, h1⟩, h2⟩, h3⟩ := h
+    refine ⟨h0, ?_, ?_, liveB_sound h3⟩
     · cases ev with
       | tick env => simpa using h1
       | recv env m => exact benignB_sound h1
     · intro hn id hid
       rw [hn, hid] at h2
-      exact answeredB_sound h2
+      simp only [Bool.and_eq_true, Bool.not_eq_true', List.isEmpty_eq_false_iff] at h2
+      exact ⟨h2.1, answeredB_sound h2.2⟩
 
 def benignRunB (sr : Msg → Bool) : Conn → List WEv → Bool
   | _, [] => true
